@@ -149,6 +149,33 @@ func emptyPrimaryWithAlias(d *dv) bool {
 	return false
 }
 
+// floatAlias: a key / label alias whose value is a float. In the F17 class such a value is promoted from the
+// extra fields to the typed field only in the second generation, after a JSON round trip, where the model
+// re-reads the number token without Go's %v spelling of it (1e-7 vs 1e-07): left to the oracle, not compared.
+func floatAlias(d *dv) bool {
+	switch d.kind {
+	case 'l':
+		for _, e := range d.l {
+			if floatAlias(e) {
+				return true
+			}
+		}
+	case 'm':
+		for _, e := range d.m {
+			switch e.k {
+			case "id", "identifier", "name", "key", "label":
+				if e.v.kind == 'f' {
+					return true
+				}
+			}
+			if floatAlias(e.v) {
+				return true
+			}
+		}
+	}
+	return false
+}
+
 func hasMergeKey(d *dv) bool {
 	switch d.kind {
 	case 'l':
@@ -243,7 +270,8 @@ func init() {
 			j1, _ := canonJSON(jb)
 			kinds := stepKinds(p.Steps)
 			// model comparison: first and second generation JSON over the JSON leg
-			if a, derr := decodeText(text); derr == nil {
+			skipModel := emptyPrimaryWithAlias(d) && floatAlias(d)
+			if a, derr := decodeText(text); derr == nil && !skipModel {
 				if p2, err2 := pipeline.Parse(bytes.NewReader(jb)); err2 == nil || warning.Is(err2) {
 					if jb2, e := json.Marshal(p2); e == nil {
 						s1, e1 := jsonSexp(jb)
@@ -279,6 +307,20 @@ func init() {
 						oracleFail("C09", "yaml-nondeterministic", c, "two YAML marshallings differ")
 					}
 					c09reparse("yaml", yb, c, j1, kinds, emptyPrimaryWithAlias(d))
+					// model comparison over the YAML leg: the value tree of the emitted YAML (member order
+					// forgotten) and the JSON of its re-parse. A key spelled << does not survive yaml.v3's
+					// emitter (known finding F7) and is left to the oracle above.
+					if a, derr := decodeText(text); derr == nil && !skipModel && !strings.Contains(j1, `"\u003c\u003c":`) {
+						if ya, yerr2 := decodeText(string(yb)); yerr2 == nil {
+							if p3, err3 := pipeline.Parse(bytes.NewReader(yb)); err3 == nil || warning.Is(err3) {
+								if jb3, e := json.Marshal(p3); e == nil {
+									if s3, e3 := jsonSexp(jb3); e3 == nil {
+										fmt.Fprintf(out, "CASE\tC09yaml\t%s\t%s\t1\n", sx.String(anySexp(a)), sx.String(sx.L(sortedAnySexp(ya), s3)))
+									}
+								}
+							}
+						}
+					}
 				}
 			}
 			// stand-alone decoders: one command step, a plugin list
